@@ -231,6 +231,58 @@ def run(prog: Program, res: Result) -> None:  # noqa: PLR0912, PLR0915
         res.fail("C20.R4", file=call.file, line=call.node.lineno, qualname=call.qualname, construct=f"json returns {[norm(r, 60) for r in rets]}", message="the json filter pre-processes its input or post-processes json.dumps output: the result no longer decodes to the input", what=what)
     res.floor("C20.R4", "json filter implementations", n_json, 1)
 
+    # ------------------------------------------------------------------ R6 surrogate-pair arithmetic
+    res.rule("C20.R6", "the \\uXXXX\\uXXXX decoder combines a surrogate pair to 0x10000 + ((hi - 0xD800) << 10) + (lo - 0xDC00) and classifies high/low surrogates by the Unicode ranges: the combining expression and the two range predicates are evaluated (symbolically, from their source) on the boundary values of every plane")
+    from sa.symprint import SymEval
+    from sa.symprint import Unsupported
+
+    un = prog.mod("liquid2/unescape.py")
+    dh = un.functions.get("_decode_hex_char")
+    if dh is None:
+        raise AnalysisError("_decode_hex_char vanished")
+    comb = [a for a in ast.walk(dh.node) if isinstance(a, ast.Assign) and len(a.targets) == 1 and isinstance(a.targets[0], ast.Name) and any(isinstance(x, ast.Name) and x.id == "low_surrogate" for x in ast.walk(a.value))]
+    res.floor("C20.R6", "surrogate combining assignments", len(comb), 1)
+    SE = SymEval(prog)
+    his = [0xD800, 0xD801, 0xD83D, 0xD83F, 0xD840, 0xD87F, 0xD880, 0xDAFF, 0xDB40, 0xDBFF]
+    los = [0xDC00, 0xDC01, 0xDE00, 0xDFFF]
+    for a in comb:
+        hi_name = next((x.id for x in ast.walk(a.value) if isinstance(x, ast.Name) and x.id != "low_surrogate"), None)
+        bad = []
+        try:
+            for hi in his:
+                for lo in los:
+                    SE.steps = 0
+                    got = SE.ev(a.value, {hi_name or "code_point": hi, "low_surrogate": lo}, dh)
+                    want = 0x10000 + ((hi - 0xD800) << 10) + (lo - 0xDC00)
+                    if got != want:
+                        bad.append(f"\\u{hi:04X}\\u{lo:04X} -> U+{got:X} (expected U+{want:X})" if isinstance(got, int) else f"\\u{hi:04X}\\u{lo:04X} -> {got!r}")
+        except Unsupported as err:
+            bad.append(f"not evaluable: {err}")
+            res.not_decided.append(f"C20.R6: the combining expression uses a construct outside the evaluator ({err})")
+        what = f"`{norm(a, 80)}` maps every boundary pair to its code point"
+        if bad:
+            res.fail("C20.R6", file=un.relpath, line=a.lineno, qualname="_decode_hex_char", construct=f"surrogate combination {norm(a.value, 60)}", message=f"the surrogate-pair combination is wrong for {len(bad)} of {len(his) * len(los)} boundary pairs, e.g. {bad[0]}: an astral character written as an escaped pair evaluates to a different character", what=what)
+        else:
+            res.ok("C20.R6", f"{un.relpath}:{a.lineno} _decode_hex_char", what, f"{len(his) * len(los)} boundary pairs across planes 1-16")
+    for fname, lo_, hi_ in (("_is_high_surrogate", 0xD800, 0xDBFF), ("_is_low_surrogate", 0xDC00, 0xDFFF)):
+        f = un.functions.get(fname)
+        if f is None:
+            raise AnalysisError(f"{fname} vanished")
+        bad = []
+        try:
+            for v in (lo_ - 1, lo_, lo_ + 1, hi_ - 1, hi_, hi_ + 1, 0x41, 0xFFFF):
+                SE.steps = 0
+                got = bool(SE.call(f, {f.params()[0]: v}))
+                if got != (lo_ <= v <= hi_):
+                    bad.append(f"{fname}(0x{v:X}) is {got}")
+        except Unsupported as err:
+            bad.append(f"not evaluable: {err}")
+        what = f"{fname} is true exactly on [0x{lo_:X}, 0x{hi_:X}]"
+        if bad:
+            res.fail("C20.R6", file=un.relpath, line=f.node.lineno, qualname=fname, construct=f"{fname} range", message=f"{fname} misclassifies boundary code points ({'; '.join(bad[:3])}): surrogate escapes are combined or rejected wrongly", what=what)
+        else:
+            res.ok("C20.R6", f"{un.relpath}:{f.node.lineno} {fname}", what, "8 boundary values")
+
     # ------------------------------------------------------------------ R5 buffers keep characters as written
     res.rule("C20.R5", "a literal's characters reach the output unchanged: no output buffer is built with a newline mode that rewrites U+000D / CRLF (LimitedStringIO forwards newline='\\n' like StringIO()) (shared with C06.R2)")
     from checks.shared import check_newline_transparency
